@@ -82,7 +82,7 @@ func innermostScope(info *types.Info, pkg *types.Package, pos token.Pos, f *FnCt
 }
 
 // dryRun executes body-like code on a copy of the state with everything unknown and records what is written.
-func (x *Exec) dryRun(s *State, run func(d *State)) (map[string]bool, map[types.Object]bool) {
+func (x *Exec) dryRun(s *State, run func(d *State) *State) (map[string]bool, map[types.Object]bool) {
 	d := s.clone()
 	d.written = map[string]bool{}
 	d.wrLocal = map[types.Object]bool{}
@@ -106,15 +106,20 @@ func (x *Exec) dryRun(s *State, run func(d *State)) (map[string]bool, map[types.
 	x.eng.recording = true
 	savedTargets := x.targets
 	savedRets := x.rets
+	var back *State
 	func() {
 		defer func() {
 			x.eng.recording = wasRec
 			x.targets = savedTargets
 			x.rets = savedRets
 		}()
-		run(d)
+		back = run(d)
 	}()
-	return d.written, d.wrLocal
+	if back == nil {
+		// no path reaches the back edge: nothing written by earlier iterations matters
+		return map[string]bool{}, map[types.Object]bool{}
+	}
+	return back.written, back.wrLocal
 }
 
 // loopHavoc remembers the pre-loop versions of the heap arrays a loop havocs, so that a frame
@@ -141,7 +146,7 @@ func invariantTerm(term string, ctr int) bool {
 // loopFrame runs the body once more from the loop-head state (recording only) to learn at which
 // references each havocked heap array is written, and assumes that all other pre-existing
 // references keep their pre-loop contents.
-func (x *Exec) loopFrame(s *State, lh *loopHavoc, run func(d *State)) {
+func (x *Exec) loopFrame(s *State, lh *loopHavoc, run func(d *State) *State) {
 	if len(lh.pre) == 0 {
 		return
 	}
@@ -155,14 +160,19 @@ func (x *Exec) loopFrame(s *State, lh *loopHavoc, run func(d *State)) {
 	x.eng.recording = true
 	savedTargets := x.targets
 	savedRets := x.rets
+	var back *State
 	func() {
 		defer func() {
 			x.eng.recording = wasRec
 			x.targets = savedTargets
 			x.rets = savedRets
 		}()
-		run(d)
+		back = run(d)
 	}()
+	if back == nil {
+		back = &State{wrefs: map[string]map[string]*pcNode{}}
+	}
+	d = back
 	fresh := map[string]bool{}
 	for _, a := range allocs {
 		fresh[a] = true
@@ -330,7 +340,7 @@ func (x *Exec) execFor(s *State, st *ast.ForStmt, label string) *State {
 	// invariants hold on entry
 	x.checkInvs(s, invs, "inv-init", bodyPos, key, nil)
 	// what does the loop write?
-	dry := func(d *State) {
+	dry := func(d *State) *State {
 		tg := &target{label: label, isLoop: true}
 		x.targets = append(x.targets, tg)
 		var b *State = d
@@ -341,9 +351,11 @@ func (x *Exec) execFor(s *State, st *ast.ForStmt, label string) *State {
 			b = x.execBlock(b, st.Body.List)
 		}
 		outs := append([]*State{b}, tg.conts...)
-		if m := x.mergeStates(d.pc, outs); m != nil && st.Post != nil {
-			x.execStmt(m, st.Post)
+		m := x.mergeStates(d.pc, outs)
+		if m != nil && st.Post != nil {
+			m = x.execStmt(m, st.Post)
 		}
+		return m
 	}
 	written, wrLocal := x.dryRun(s, dry)
 	lh := x.havocLoop(s, written, wrLocal)
@@ -533,14 +545,16 @@ func (x *Exec) execRange(s *State, st *ast.RangeStmt, label string) *State {
 		return x.execBlock(b, st.Body.List)
 	}
 
-	dry := func(d *State) {
+	dry := func(d *State) *State {
 		tg := &target{label: label, isLoop: true}
 		x.targets = append(x.targets, tg)
 		k := x.eng.fresh("k", sInt)
 		if counted {
 			d.assume(mkAnd(mkCmp("<=", "0", k), mkCmp("<", k, n)))
 		}
-		runBody(d, k, tg, true)
+		anc := d.pc
+		end := runBody(d, k, tg, true)
+		return x.mergeStates(anc, append([]*State{end}, tg.conts...))
 	}
 	written, wrLocal := x.dryRun(s, dry)
 	// the loop variables themselves are re-bound each iteration
